@@ -124,12 +124,13 @@ func Jobs(mode string, plan []LenPlan) []Job {
 	return append(out, ComboJobs(mode)...)
 }
 
-// ComboJobs (both tiers): every key combination of the three-key entities alone (fault-free
+// ComboJobs (both tiers): every key combination of the three-key entities and every
+// required-field combination of the three-requires entities alone (fault-free
 // and with every single fault) and paired, in both orders, with each companion (fault-free);
-// every schedule, no bound.
+// every schedule, no bound (pairs of the required-field combinations: canonical schedule).
 func ComboJobs(mode string) []Job {
 	var out []Job
-	for _, l := range KeyCombos {
+	for _, l := range append(append([]Letter(nil), KeyCombos...), ReqCombos...) {
 		c := Case{List: []string{l.Name}}
 		out = append(out, Job{c, Unbounded})
 		for _, f := range FaultPositions(mode, c.Reps()) {
@@ -137,8 +138,19 @@ func ComboJobs(mode string) []Job {
 			out = append(out, Job{Case{List: c.List, Fault: &f}, Unbounded})
 		}
 		typ := l.Name[:strings.IndexByte(l.Name, ':')]
+		pb := Unbounded
+		if entities[typ].Req3 {
+			// 1,728 pairs with 100-400 schedules each: canonical schedule only, except the
+			// well-formed combination (which required field goes where is decided by
+			// sequential code; the interleaving of two entity goroutines is covered by the
+			// main alphabet and by this pair)
+			pb = First
+			if strings.HasSuffix(l.Name, ":WWW") {
+				pb = Unbounded
+			}
+		}
 		for _, o := range Companions[typ] {
-			out = append(out, Job{Case{List: []string{l.Name, o.Name}}, Unbounded}, Job{Case{List: []string{o.Name, l.Name}}, Unbounded})
+			out = append(out, Job{Case{List: []string{l.Name, o.Name}}, pb}, Job{Case{List: []string{o.Name, l.Name}}, pb})
 		}
 	}
 	return out
